@@ -37,12 +37,12 @@ func build(tb *model.Table, viaGroup []int) *rux.Router {
 			k = viaGroup[i]
 		}
 		if k <= 0 || k >= len(d.P.Segs) || d.P.Raw != "" {
-			r.AddNamed(name, d.P.String(), h, d.Methods...)
+			model.RegisterOne(r, d, d.P.String(), h)
 			continue
 		}
 		prefix := model.Pattern{Segs: d.P.Segs[:k]}.String()
 		rest := model.Pattern{Segs: d.P.Segs[k:], Opt: d.P.Opt, TrailSlash: d.P.TrailSlash}.String()
-		r.Group(prefix, func() { r.AddNamed(name, rest, h, d.Methods...) })
+		r.Group(prefix, func() { model.RegisterOne(r, d, rest, h) })
 	}
 	return r
 }
